@@ -159,6 +159,18 @@ func WithDeadline(parent context.Context, d time.Time) (context.Context, context
 	c.hasDeadline = true
 	c.deadline = d
 	// the deadline may pass at any moment (arbitrary timer); the watcher ends when c is cancelled
+	if vrt.Timed() {
+		// timed runs: the deadline is a timer like any other (it moves the clock to the deadline when it fires)
+		left := time.Until(d)
+		go func() {
+			select {
+			case <-timerChan(left):
+				cancelCtx(c, context.DeadlineExceeded)
+			case <-c.done:
+			}
+		}()
+		return c, func() { cancelCtx(c, context.Canceled) }
+	}
 	go func() {
 		timer := make(chan struct{}, 1)
 		timer <- struct{}{}
